@@ -87,6 +87,26 @@ class SSAValue:
     def op(self):
         return self.owner
 
+    def _users(self):
+        """all current uses, by a scan over every op constructed in this run (what xdsl's use-list holds)"""
+        out = []
+        for o in ALL_OPS:
+            if getattr(o, "erased", False):
+                continue
+            k = 0
+            for v in o.operands:
+                if v is self:
+                    out.append(Use(o, k))
+                k += 1
+        return out
+
+    def get_user_of_unique_use(self):
+        us = self._users()
+        return us[0].operation if len(us) == 1 else None
+
+    def has_one_use(self):
+        return len(self._users()) == 1
+
     def replace_uses_with_if(self, value, predicate):
         """recorded (the contract reads `replaced` to see which value users now see); performed only in EAGER mode"""
         self.replaced = (value, predicate)
@@ -249,6 +269,15 @@ class Operation:
         new.properties = dict(self.properties)
         return new
 
+    def get_trait(self, trait):
+        """traits are not modelled as objects: the trait class itself stands for 'the op has it' (its static helpers,
+        e.g. SymbolTable.lookup_symbol, are stubbed)"""
+        return trait
+
+    def add_region(self, region):
+        region.parent = self
+        self.regions.append(region)
+
     def has_trait(self, trait):
         """traits are ghost flags on view ops: only IsTerminator is modelled"""
         return getattr(self, "is_terminator", False)
@@ -301,6 +330,13 @@ class Block:
     def add_op(self, op):
         op.parent = self
         self.ops.append(op)
+
+    @property
+    def arg_types(self):
+        return tuple(a.type for a in self.args)
+
+    def erase_arg(self, arg, safe_erase=True):
+        self.args = tuple(a for a in self.args if a is not arg)
 
     def insert_arg(self, arg_type, index):
         a = BlockArgument(fresh_int("barg"), arg_type, self)
